@@ -80,6 +80,9 @@ def parse(out, rc, wall):
 def run(module, cfg_text, *, env=None, workers=NCPU, timeout=600, simulate=None, depth=None, coverage=False,
         extra_files=None, seed=None, deadlock=False, dfs=False, java_opts=None, keep_dir=None, cont=False):
     """Run TLC on spec/<module>.tla with the given cfg text.  extra_files: {name: text} written next to the spec."""
+    # the timeouts written at the call sites were measured on an idle 16-core machine; they are safety nets against a hung
+    # model checker, not budgets, so they are stretched to survive a loaded machine
+    timeout = int(timeout * float(os.environ.get("VERIF_TIMEOUT_SCALE", "4")))
     with scratch("tlc") as d:
         for f in glob.glob(os.path.join(SPEC, "*.tla")):
             shutil.copy(f, d)
